@@ -283,7 +283,7 @@ def check_seq(case, stats):
 
 
 CHECKS = {'check_cell': check_cell, 'check_seq': check_seq}
-_B = {'quick': 15, 'thorough': 200}
+_B = {'quick': 40, 'thorough': 300}
 
 
 def shards(tier):
